@@ -32,3 +32,19 @@ package event
 //@   loop 1 range *eventConsumers
 //@     invariant count(Call, code("event|IConsumer.ConsumeEvent")) == old(count(Call, code("event|IConsumer.ConsumeEvent"))) + rk1
 //@     invariant forall p int :: old(evlen) <= p && p < evlen ==> isCall(ev(p)) || isOpaque(ev(p))
+
+// Registering a consumer with an event source is one Call event carrying the source it was registered with (so that
+// a constructor's contract can say where a listener listens).  The registry's own list belongs to the source and is
+// not read by the constructors under contract.
+//@ func ISource.RegisterEventConsumer
+//@   assumed
+//@   modifies nothing
+//@   emits Call(code("event|ISource.RegisterEventConsumer"), this)
+
+// Building the instance of an event definition is unknown code that touches none of the engine's channels, tracers,
+// registries or locks (assumed: opaque events only).
+//@ func IDefinitionInstanceBuilder.NewEventDefinitionInstance
+//@   assumed
+//@   modifies nothing
+//@   flag emits opaque
+//@   flag allocs
